@@ -82,6 +82,13 @@ def forest_df(f, radius=None):
     df = pd.DataFrame({'node_id': np.array(f['ids'], dtype=np.int64), 'parent_id': np.array(f['parents'], dtype=np.int64),
                        'x': xyz[:, 0], 'y': xyz[:, 1], 'z': xyz[:, 2]})
     df['radius'] = 0.0 if radius is None else radius
+    # a node table need not carry the default RangeIndex (rows picked with .iloc, concatenated tables ...): every fourth forest
+    # (decided by its ids, so that twins built from the same forest agree) gets a reversed / offset pandas index
+    key = int(sum(int(i) % 97 for i in f['ids'])) % 8
+    if key == 0:
+        df.index = np.arange(len(df))[::-1]
+    elif key == 1:
+        df.index = np.arange(len(df)) + 100
     return df
 
 
